@@ -44,9 +44,12 @@ META = {
              '(tangent-plane distance at the Wilson gas-like and liquid-like trials, 15 iterates of Michelsen\'s fixed-point map from '
              'each, 20 random trials; also applied to "two-phase" results with identical phases and to every one-phase trace variant of a '
              'stability-decided feed), insensitivity of the phase count to a trace component, placement of a one-phase feed in the '
-             'row of the lower-Gibbs-energy root / the gas row for a near-ideal single-root state.  NOT REACHABLE: the warm-start half '
-             'of the quantifier — dbm.py l.2577 `isinstance(np.sum(K_0), type(np.nan))` is True for every float array, so a supplied K '
-             'is always replaced by the Wilson estimate; a few probes per run record this, they are not counted as coverage.  '
+             'row of the lower-Gibbs-energy root / the gas row for a near-ideal single-root state.  WARM START: at least 25 % of the flash cases are '
+             'repeated with a caller-supplied K vector (the same feed\'s K at another state, log-uniform [1e-3,1e3]^n, the cold K times '
+             'lognormal(1), NaN / zero entries) and every predicate is evaluated on the warm result; on /repo the guard at dbm.py l.2577 '
+             '`isinstance(np.sum(K_0), type(np.nan))` is True for every float array, so the supplied K is replaced by the Wilson estimate '
+             'and every warm result is bit-identical to the cold one (counted, evidence field warm_start) — the warm-start half of the '
+             'quantifier is exercised through the interface but is dead code upstream.  '
              'Calls exceeding the time budget (about 1 %, K decaying to underflow over 1e3-1e5 substitution calls) are dropped, '
              'counted, and bounded by an obligation (<= 4 %).'),
     'technique': 'Lean 4 proof over a hand-written executable model + differential execution against the real code + predicates on real outputs',
@@ -55,8 +58,9 @@ GEN = []
 MODULES = ['TamocV.Props.C02Root', 'TamocV.Props.C02', 'TamocV.Model.Flash']
 RULE = ('phase-split solve: n = 1..7, z Dirichlet(0.2|1|3) (10% with an exact zero), K log-uniform in [1e-6,1e6]^n in the '
         'regimes ' + ', '.join(scen_mix.RR_KINDS) + ' plus fixed edge cases (pure component, K = 1 entries, z_i = 1 with K_i = 1, '
-        'sum z K = 1 exactly), random molar masses in half of the cases; flash (cold start only — the warm-start clause of the '
-        'quantifier is unreachable in the code, see META): 1..7 distinct database compounds other than water, hydrogen included '
+        'sum z K = 1 exactly), random molar masses in half of the cases; flash (every case cold; >= 25% of the cases '
+        'repeated with a supplied K vector: same feed at another state / log-uniform [1e-3,1e3]^n / cold K x lognormal(1) / NaN and zero '
+        'entries — dead code on /repo, see META): 1..7 distinct database compounds other than water, hydrogen included '
         '(60% forced to contain a light gas and a heavier compound), Dirichlet mass fractions, exact zero masses with probability '
         '0.15 per component in half of the feeds, total mass log-uniform 1e-6..1e2 kg, T uniform 270-420 K, P log-uniform (70%) or '
         'uniform 1e5-5e7 Pa; targeted feeds in the same pipeline: pure compounds, dense supercritical mixtures of O2/Ar/N2/CO/CH4 at '
@@ -655,6 +659,9 @@ def check_feed(ctx, res, lines, line_owner):
         line_owner.append((res, 'reduce-m'))
         lines.append(req('Flash.reduce', m, M))
         line_owner.append((res, 'reduce-M'))
+        if c.get('K0') is not None and mmr.get('K0') is not None and np.all(np.isfinite(c['K0'])):
+            lines.append(req('Flash.reduce', m, c['K0']))
+            line_owner.append((res, 'reduce-K0'))
         if rec.get('ss') is not None:
             ss = rec['ss']
             zred = (np.array(mmr['m']) / np.array(mmr['M']))
@@ -827,6 +834,10 @@ def single_phase_clauses(ctx, res, case, row):
             ctx.count('flash:negative-tpd:' + ('signature-wilson-start-finds-split' if signature else 'no-signature'))
             key = ('unstable-single-phase-hydrogen-rich-high-pressure' if specific else
                    'unstable-single-phase-stability-test-started-from-drifted-K' if signature else 'negative-tangent-plane-distance')
+            if c.get('K0') is not None and not res.get('warm_identical'):
+                # a warm-started flash whose result is NOT the cold result: the two known mechanisms above are findings about the cold
+                # start (Wilson K); an unstable one-phase answer produced from a caller-supplied K is reported on its own
+                key = 'warm-start:negative-tangent-plane-distance'
             ctx.violation(key,
                           'a trial composition has a negative tangent-plane distance from a feed reported as one phase',
                           dict(case, row=row, tpd=t['min'], trial=t['arg'], wilson_started_stability_analysis=sig))
@@ -867,6 +878,7 @@ def boundary_feeds(ctx):
     return jobs
 
 
+WARM = {}                  # warm-start record of the run, copied into the evidence by extra()
 STAB_BETA_MARGIN = 0.02   # a base feed counts as "away from a phase boundary" when 0.02 <= beta <= 0.98
 TRACE_BETA_TOL = 5e-2     # allowed change of beta under a trace perturbation (<= 1e-6 of the feed mass): dominated by the flash's own
                           # stopping tolerance near critical states, not by continuity: measured on the unchanged tree over 1024 pairs of
@@ -1018,39 +1030,91 @@ def run_flash(ctx, lean_ok, dbm):
     for j, x in zip(trace_jobs, trace_results):
         x['case'] = j
     results = results + trace_results
-    # warm-start PROBE (not coverage): dbm.equil_MM l.2577 tests `isinstance(np.sum(K_0), type(np.nan))`, which is True for every
-    # float array, so a supplied K is always replaced by the Wilson estimate and the warm-start clause of the quantifier is
-    # unreachable.  A few feeds are re-run with the K the code returned at a neighbouring state; the K that reaches the first
-    # successive_substitution call is recorded.  Only if the supplied K does arrive (i.e. after a repair) do these calls count.
+    # ---- warm start: a fixed share (>= 25 %, floor obligation) of the flash cases is repeated with a caller-supplied K vector ----------
+    # On /repo the guard `isinstance(np.sum(K_0), type(np.nan))` (dbm.py l.2577) is True for every float array, so the supplied K is
+    # replaced by the Wilson estimate and the warm result is bit-identical to the cold one (recorded, counted, in the evidence).  The K
+    # vectors are passed all the same, and EVERY predicate of the property is evaluated on the warm result, so that the check notices
+    # when the warm start becomes live.  warm == cold is NOT demanded (a live, correct warm start may differ within solver tolerance).
     r = ctx.rng
+    cold_ok = [i for i, res in enumerate(results) if res['status'] == 'ok' and np.all(np.isfinite(res['mm']))]
+    chosen = r.sample(cold_ok, min(len(cold_ok), int(0.35 * len(results)) + 1))
+    # (a) needs the same feed's own K at ANOTHER state of the box: one auxiliary cold flash per such case
+    kinds = {}
+    aux_jobs, aux_of = [], {}
+    for i in chosen:
+        kinds[i] = r.choice(['other-state', 'other-state', 'log-uniform', 'log-uniform', 'perturbed', 'perturbed', 'nan-or-zeros'])
+        if kinds[i] == 'other-state':
+            c = results[i]['case']
+            T2, P2 = scen_mix.state(r)
+            aux_of[i] = len(aux_jobs)
+            aux_jobs.append({'composition': c['composition'], 'm': c['m'], 'T': T2, 'P': P2, 'K0': None, 'tag': 'aux-other-state'})
+    aux_results = _pool_map(ctx, aux_jobs, budget)
     warm_jobs = []
-    cand = [res for res in results if res['status'] == 'ok' and res.get('two') and np.all(np.isfinite(res['K']))]
-    for res in r.sample(cand, min(len(cand), ctx.n(12, 200))):
-        c = res['case']
-        T2 = min(420., max(270., c['T'] + r.uniform(-2., 2.)))
-        P2 = min(5e7, max(1e5, c['P'] * math.exp(r.uniform(-0.03, 0.03))))
-        warm_jobs.append({'composition': c['composition'], 'm': c['m'], 'T': T2, 'P': P2, 'K0': res['K'], 'tag': 'warm'})
-    warm_results = _pool_map(ctx, warm_jobs, budget)
-    ctx.notes.append('equilibrium: %d real calls (+ %d warm-start probes) in %.1f s (budget %.1f s per call)'
-                     % (len(results), len(warm_results), time.time() - t0, budget))
-    nused = nign = 0
-    warm_counted = []
+    for i in chosen:
+        cold = results[i]
+        c = cold['case']
+        n = len(c['m'])
+        nzc = np.array(c['m']) > 0.
+        kind = kinds[i]
+        K0 = None
+        if kind == 'other-state':
+            ax = aux_results[aux_of[i]]
+            if ax['status'] == 'ok' and ax.get('two') and np.all(np.isfinite(np.array(ax['K'])[nzc])):
+                K0 = list(ax['K'])
+            else:
+                kind = 'log-uniform'
+        if kind == 'perturbed':
+            base = np.array(cold['K'], dtype=float)
+            if not (cold.get('two') and np.all(np.isfinite(base[nzc]))):
+                fm = _fm(c['composition'])
+                with np.errstate(all='ignore'):
+                    base = np.exp(5.37 * (1. + fm.omega) * (1. - fm.Tc / c['T'])) / (c['P'] / fm.Pc)
+            K0 = [float(b * math.exp(r.gauss(0., 1.))) for b in base]
+        if kind == 'log-uniform':
+            K0 = [scen_mix.log_uniform(r, 1e-3, 1e3) for _ in range(n)]
+        if kind == 'nan-or-zeros':
+            # what the code itself hands back and callers hand in again: the NaN vector of a one-phase result, a K with NaN entries,
+            # zeros at the zero-mass components (and, for feeds without such components, one zero entry)
+            K0 = [scen_mix.log_uniform(r, 1e-2, 1e2) for _ in range(n)]
+            u = r.random()
+            if u < 0.35:
+                K0 = [float('nan')] * n
+            elif u < 0.6:
+                K0[r.randrange(n)] = float('nan')
+            else:
+                zpos = [k for k in range(n) if not nzc[k]] or [r.randrange(n)]
+                for k in zpos:
+                    K0[k] = 0.
+        warm_jobs.append({'composition': c['composition'], 'm': c['m'], 'T': c['T'], 'P': c['P'], 'K0': K0, 'tag': 'warm:' + kind, 'cold': i})
+    warm_results = _pool_map(ctx, [{k: v for k, v in j.items() if k != 'cold'} for j in warm_jobs], budget)
+    ctx.notes.append('equilibrium: %d cold calls + %d auxiliary cold calls + %d warm-start calls in %.1f s (budget %.1f s per call)'
+                     % (len(results), len(aux_results), len(warm_results), time.time() - t0, budget))
+    n_ident = n_diff = n_kused = n_kign = 0
     for j, wres in zip(warm_jobs, warm_results):
-        if wres['status'] != 'ok' or wres['rec'].get('first_K_in') is None:
+        wres['case'] = j
+        cold = results[j['cold']]
+        if wres['status'] != 'ok':
             continue
-        k0 = np.array(j['K0'])[np.array(j['m']) > 0.]
-        used = np.array(wres['rec']['first_K_in'])
-        if len(k0) == len(used) and close(list(k0), list(used), 1e-12):
-            nused += 1
-            warm_counted.append(wres)
-        else:
-            nign += 1
-            ctx.count('flash:warm-start-probe(supplied K replaced by the Wilson estimate; NOT coverage)')
-    ctx.notes.append(('QUANTIFIER CLAUSE NOT REACHABLE' if nused == 0 else 'WARM START NOW REACHABLE') + ': "with and without a warm-start K vector" — the supplied K reached the first '
-                     'successive_substitution call in %d of %d probes (dbm.py l.2577 `isinstance(np.sum(K_0), type(np.nan))` is True for every '
-                     'float array; repair: `np.isnan(np.sum(K_0))`).  Every evaluated call is therefore a cold start; no statement clause is made '
-                     'false by this, the warm-start half of the quantifier is simply not exercised%s'
-                     % (nused, nused + nign, '' if nused == 0 else ' — EXCEPT that the supplied K now arrives: those calls are evaluated and counted under flash:tag:warm'))
+        same = all(np.array_equal(np.array(wres[k], dtype=float), np.array(cold[k], dtype=float), equal_nan=True) for k in ('mm', 'xi', 'K'))
+        wres['warm_identical'] = bool(same)
+        n_ident += int(same)
+        n_diff += int(not same)
+        ctx.count('flash:warm:result-bit-identical-to-cold' if same else 'flash:warm:result-differs-from-cold')
+        fk = wres['rec'].get('first_K_in')
+        if fk is not None:
+            k0 = np.array(j['K0'], dtype=float)[np.array(j['m']) > 0.]
+            arrived = len(k0) == len(fk) and bool(np.array_equal(k0, np.array(fk, dtype=float), equal_nan=True))
+            n_kused += int(arrived)
+            n_kign += int(not arrived)
+    WARM['calls'], WARM['bit_identical_to_cold'], WARM['differs_from_cold'] = len(warm_results), n_ident, n_diff
+    WARM['supplied_K_reached_first_successive_substitution'], WARM['supplied_K_replaced'] = n_kused, n_kign
+    ctx.notes.append('warm start: %d calls with a supplied K (same feed at another state / log-uniform [1e-3,1e3]^n / cold K x lognormal(1) / NaN '
+                     'and zero entries); result bit-identical to the cold result in %d, different in %d; the supplied K reached the first '
+                     'successive_substitution call in %d, was replaced by the Wilson estimate in %d (on /repo the guard at dbm.py l.2577, '
+                     '`isinstance(np.sum(K_0), type(np.nan))`, is True for every float array: dead warm start).  All property predicates are '
+                     'evaluated on every warm result' % (len(warm_results), n_ident, n_diff, n_kused, n_kign))
+    results = results + aux_results
+    warm_counted = warm_results
     lines, owner = [], []
     slow = []
     worst_iso = 0.
@@ -1096,6 +1160,9 @@ def run_flash(ctx, lean_ok, dbm):
                and h.get('flash:trace-pair:compared', 0) >= ctx.n(20, 300),
                'two-phase=%r single-phase=%r pairs=%r' % (h.get('flash:stability-decided:two-phase', 0), h.get('flash:stability-decided:single-phase', 0),
                                                           h.get('flash:trace-pair:compared', 0)))
+    nwarm = sum(1 for x in warm_counted if x['status'] == 'ok')
+    ctx.oblige('floors: warm-start calls (supplied K vector) evaluated with all predicates: at least 25%% of the %d cold flash cases (%d)'
+               % (len(results), nwarm), nwarm >= 0.25 * len(results), '%d of %d' % (nwarm, len(results)))
     ctx.oblige('floors: at most 4%% of the equilibrium calls dropped for exceeding the %.1f s budget (%d of %d)' % (budget, len(slow), nall),
                len(slow) <= 0.04 * nall, '%d of %d' % (len(slow), nall))
     # ---- correspondence through the driver ---------------------------------------------------------------------------
@@ -1107,9 +1174,9 @@ def run_flash(ctx, lean_ok, dbm):
             for o, (res, what) in zip(out, owner):
                 rec = res['rec']
                 c = res['case']
-                if what in ('reduce-m', 'reduce-M'):
+                if what in ('reduce-m', 'reduce-M', 'reduce-K0'):
                     cnt['reduce'] += 1
-                    want = rec['mm']['m'] if what == 'reduce-m' else rec['mm']['M']
+                    want = rec['mm']['m'] if what == 'reduce-m' else rec['mm']['M'] if what == 'reduce-M' else rec['mm']['K0']
                     if not (isinstance(o, list) and close(o[0], want, 0.)):
                         bad['reduce'] += 1
                         ctx.broken.append(('correspondence', 'Model.Flash.gather(mask m) vs arguments of equil_MM', 'case=%r model=%r code=%r' % (c, o, want)))
@@ -1275,6 +1342,11 @@ def run_targeted(ctx, dbm):
                               '(the situation in which the gas-mole formula used before commit 87c9b6c failed)',
                               dict(case, K_minus_1=(K - 1.).tolist(), masses=mm.tolist(), relative_defect=defect.tolist()))
     ctx.notes.append('targeted: %d of %d feeds have a pressure where the K of the first component crosses 1' % (nfound, len(feeds)))
+
+
+def extra(ctx):
+    """additional evidence fields"""
+    return {'warm_start': dict(WARM)} if WARM else None
 
 
 def replay(ctx, path):
